@@ -185,7 +185,15 @@ def c_attribute(P):
 def c_alias(P):
     a = new(P, "Alias", SStr(z3.String("name")), SStr(z3.String("target_path")), lineno=opt_int(P, "lineno"), endlineno=opt_int(P, "endlineno"))
     P.assume(z3.And(z3.Int("lineno") >= 1, z3.Int("endlineno") >= 1))      # ast line numbers start at 1
-    d1 = codec(P, a, False)
+    if P.branch(z3.Bool("resolved")):
+        # a resolved alias: whatever it points at (the end of a re-export chain has a path of its own), the dump keeps the target written in the source
+        a.fields["_target"] = new(P, "Function", ident_name(P, "final_name"))
+        a.fields["parent"] = new(P, "Module", ident_name(P, "module_name"))
+        P.cover("alias.resolved")
+    kind, d1 = outcome(P, lambda: codec(P, a, False))
+    P.prove("serialising_never_fails", kind == "ok", exc=(P.resolve_cls(d1) + str(d1.fields.get("args")) if kind == "raise" else ""))
+    if kind != "ok":
+        return
     kind, back = outcome(P, lambda: decode(P, d1))
     P.prove("reload_never_fails", kind == "ok", exc=(P.resolve_cls(back) + str(back.fields.get("args")) if kind == "raise" else ""))
     if kind != "ok":
